@@ -12,16 +12,42 @@ EXTENDS BinModel, Json, IOUtils, TLC
 VARIABLE l
 Tr == ndJsonDeserialize(IOEnv.TRACE)
 C == INSTANCE Cbor
+M == INSTANCE Msgpack
+U == INSTANCE Ubjson
+B == INSTANCE Bson
 
-\* documented image of a data-model value in format f, and the format's domain
-InDomain(f, v) == CASE f = "cbor" -> TRUE
-Image(f, v) == v
-SpecDecode(f, b) == CASE f = "cbor" -> C!Decode(b)
+IsBigUint(v) == v[1] = "uint" /\ Len(v[2]) = 8 /\ v[2][1] >= 128           \* above INT64_MAX
+RECURSIVE HasBigUint(_)
+HasBigUint(v) == CASE v[1] = "uint" -> IsBigUint(v)
+                   [] v[1] = "arr" -> \E k \in 1..Len(v[2]) : HasBigUint(v[2][k])
+                   [] v[1] = "map" -> \E k \in 1..Len(v[2]) : HasBigUint(v[2][k][2])
+                   [] OTHER -> FALSE
+\* The format's domain (doc/ref/<format>/*.md).  CBOR and MessagePack represent every value of the universe.
+\* UBJSON has no unsigned 64-bit type (values above INT64_MAX are mapped to high-precision numbers: "mapped").
+\* A BSON document is rooted in an object and has no unsigned 64-bit type at all.
+Domain(f, v) == CASE f = "cbor" -> "in" [] f = "msgpack" -> "in"
+                  [] f = "ubjson" -> IF HasBigUint(v) THEN "mapped" ELSE "in"
+                  [] f = "bson" -> IF v[1] # "map" THEN "dont-care" ELSE IF HasBigUint(v) THEN "out" ELSE "in"
+\* documented image: UBJSON writes a byte string as an array strongly typed as uint8
+RECURSIVE Image(_, _)
+Image(f, v) ==
+  CASE f = "ubjson" /\ v[1] = "bstr" -> <<"arr", [k \in 1..Len(v[2]) |-> <<"uint", IF v[2][k] = 0 THEN <<>> ELSE <<v[2][k]>>>>]>>
+    [] v[1] = "arr" -> <<"arr", [k \in 1..Len(v[2]) |-> Image(f, v[2][k])]>>
+    [] v[1] = "map" -> <<"map", [k \in 1..Len(v[2]) |-> <<v[2][k][1], Image(f, v[2][k][2])>>]>>
+    [] OTHER -> v
+SpecDecode(f, b) == CASE f = "cbor" -> C!Decode(b) [] f = "msgpack" -> M!Decode(b) [] f = "ubjson" -> U!Decode(b) [] f = "bson" -> B!Decode(b)
 \* CBOR string packing (tags 256 / 25): resolve references before comparing
 Unpack(f, route, v) == IF f = "cbor" /\ route = "packed" THEN C!ResolveStringRefs(v) ELSE v
 
 LineOk(t) ==
-  IF t.enc = "err" THEN ~InDomain(t.f, t.v)
+  LET dom == Domain(t.f, t.v) IN
+  IF dom = "dont-care" THEN TRUE
+  ELSE IF t.enc = "err" THEN dom = "out"                          \* refusing is allowed only outside the domain
+  ELSE IF dom = "out" THEN FALSE                                  \* ... and required there (never truncated / wrapped / missing data)
+  ELSE IF dom = "mapped" THEN                                     \* UBJSON big unsigned: a top-level value is checked digit for digit
+       LET r == SpecDecode(t.f, t.bytes) IN
+       /\ r[1] = "ok" /\ r[3] = Len(t.bytes) + 1 /\ t.dec_ok
+       /\ (IsBigUint(t.v) => (r[2] = <<"hpn", t.decimal>> /\ t.dec[1] = "numstr" /\ t.dec[3] = t.decimal))
   ELSE LET r == SpecDecode(t.f, t.bytes) IN
        /\ r[1] = "ok"
        /\ r[3] = Len(t.bytes) + 1                               \* nothing missing, nothing extra
